@@ -210,18 +210,6 @@ func mustReject(cx *attrCtx, c Case) string {
 	return ""
 }
 
-// oneDigitRef: "&#" + one decimal digit that is followed neither by a digit nor by ';'.
-func oneDigitRef(p string) bool {
-	for i := 0; i+2 < len(p); i++ {
-		if p[i] == '&' && p[i+1] == '#' && '0' <= p[i+2] && p[i+2] <= '9' {
-			if i+3 == len(p) || !(p[i+3] == ';' || '0' <= p[i+3] && p[i+3] <= '9') {
-				return true
-			}
-		}
-	}
-	return false
-}
-
 func normalizeRef(m string) string {
 	var b strings.Builder
 	for i := 0; i < len(m); i++ {
@@ -266,8 +254,8 @@ func check(c Case) evid.Outcome {
 	}
 	if why != "" {
 		v := evid.Viol("template %q accepted (output %q) although its static %s", text, out, why)
-		if strings.HasSuffix(why, "written as character references") && !hasWSorCtl(html.UnescapeString(string(c.Prefix))) && oneDigitRef(string(c.Prefix)) {
-			v.Finding = "K-numref"
+		if dB, ok := decodeAttr(string(c.Prefix), c.Quote); ok && dB != html.UnescapeString(string(c.Prefix)) && !endsInPartialCharRef(string(c.Prefix)) && !hasWSorCtl(string(c.Prefix)) {
+			v.Finding = "K-unescape"
 		}
 		return v
 	}
@@ -321,7 +309,11 @@ func check(c Case) evid.Outcome {
 		}
 		for i := 0; i < len(m); i++ {
 			if !(rfc3986.Unreserved(m[i]) || rfc3986.IsEscape(m, i) || (i >= 1 && rfc3986.IsEscape(m, i-1)) || (i >= 2 && rfc3986.IsEscape(m, i-2)) || (c.Pipe == " | urlquery" && m[i] == '+')) {
-				return evid.Viol("template %q data %q: in the query/fragment or after a TrustedResourceURL prefix the data must be fully percent-encoded, got %q (byte %q)", text, datum, m, m[i])
+				vi := evid.Viol("template %q data %q: in the query/fragment or after a TrustedResourceURL prefix the data must be fully percent-encoded, got %q (byte %q)", text, datum, m, m[i])
+				if dP != html.UnescapeString(string(c.Prefix)) {
+					vi.Finding = "K-unescape"
+				}
+				return vi
 			}
 		}
 		dec := rfc3986.Decode(m)
